@@ -6,13 +6,13 @@ Local Open Scope N_scope.
 Ltac Zify.zify_post_hook ::= Z.to_euclidean_division_equations.
 
 (* ------------------------------------------------------------------ numbered logs *)
-Lemma number_length f pl : List.length (number f pl) = List.length pl.
+Lemma number_length f pl : List.length (number_log f pl) = List.length pl.
 Proof. revert f; induction pl as [|p r IH]; intros f; cbn; [reflexivity|now rewrite IH]. Qed.
 
 Lemma number_app f a b :
-  number f (a ++ b) = number f a ++ number (f + N.of_nat (List.length a)) b.
+  number_log f (a ++ b) = number_log f a ++ number_log (f + N.of_nat (List.length a)) b.
 Proof.
-  revert f; induction a as [|p r IH]; intros f; cbn [number app List.length].
+  revert f; induction a as [|p r IH]; intros f; cbn [number_log app List.length].
   - f_equal. lia.
   - rewrite IH. do 3 f_equal. lia.
 Qed.
@@ -27,9 +27,9 @@ Qed.
 
 (* every contiguous piece of a numbered log is a numbered log *)
 Lemma number_split f pl pre b post :
-  number f pl = pre ++ b ++ post ->
-  exists p1 p2 p3, pl = p1 ++ p2 ++ p3 /\ pre = number f p1 /\
-                   b = number (f + N.of_nat (List.length pre)) p2 /\
+  number_log f pl = pre ++ b ++ post ->
+  exists p1 p2 p3, pl = p1 ++ p2 ++ p3 /\ pre = number_log f p1 /\
+                   b = number_log (f + N.of_nat (List.length pre)) p2 /\
                    List.length p1 = List.length pre /\ List.length p2 = List.length b.
 Proof.
   intros H.
@@ -53,33 +53,33 @@ Proof.
 Qed.
 
 Lemma number_last f pl d :
-  pl <> [] -> eidx (last (number f pl) d) = f + N.of_nat (List.length pl) - 1.
+  pl <> [] -> eidx (last (number_log f pl) d) = f + N.of_nat (List.length pl) - 1.
 Proof.
   revert f; induction pl as [|p r IH]; intros f Hne; [congruence|].
   destruct r as [|p2 r].
   - cbn. lia.
-  - change (number f (p :: p2 :: r)) with (mkE f p :: number (N.succ f) (p2 :: r)).
-    change (last (mkE f p :: number (N.succ f) (p2 :: r)) d)
-      with (last (number (N.succ f) (p2 :: r)) d).
+  - change (number_log f (p :: p2 :: r)) with (mkE f p :: number_log (N.succ f) (p2 :: r)).
+    change (last (mkE f p :: number_log (N.succ f) (p2 :: r)) d)
+      with (last (number_log (N.succ f) (p2 :: r)) d).
     rewrite IH by discriminate. cbn [List.length]. lia.
 Qed.
 
 Lemma publish_nonempty a ents :
-  ents <> [] -> publish a ents = (eidx (last ents (mkE 0 PEmpty)), cmds_of ents).
+  ents <> [] -> publish_entries a ents = (eidx (last ents (mkE 0 PEmpty)), cmds_of ents).
 Proof. destruct ents; [congruence|reflexivity]. Qed.
 
 (* ------------------------------------------------------------------ one Ready *)
 Definition is_window (L b : list entry) : Prop := exists pre post, L = pre ++ b ++ post.
 
-Lemma window_is_window L lo len : is_window L (window L lo len).
+Lemma log_window_is_window L lo len : is_window L (log_window L lo len).
 Proof.
-  unfold window. exists (firstn lo L), (skipn len (skipn lo L)).
+  unfold log_window. exists (firstn lo L), (skipn len (skipn lo L)).
   now rewrite !firstn_skipn.
 Qed.
 
 Section Step.
   Variables (base : N) (pl : list payload).
-  Let L := number (base + 1) pl.
+  Let L := number_log (base + 1) pl.
   Hypothesis Hfit : base + N.of_nat (List.length pl) + 1 < W64.
 
   (* the node has applied exactly the first k entries *)
@@ -100,7 +100,7 @@ Section Step.
       cbn in Hs. inversion Hs; subst. cbn. rewrite app_nil_r. repeat split; auto.
     - destruct p2 as [|q p2']; [cbn in Lp2; discriminate|].
       assert (Efirst : eidx e = base + 1 + N.of_nat (List.length pre)).
-      { cbn [number] in Eb. inversion Eb. reflexivity. }
+      { cbn [number_log] in Eb. inversion Eb. reflexivity. }
       unfold entries_to_apply in Hs. rewrite Efirst in Hs.
       remember (List.length pre) as lo eqn:Elo.
       remember (List.length (e :: b')) as m eqn:Em.
@@ -120,7 +120,7 @@ Section Step.
         cbv zeta. rewrite Hmax.
         (* what is new is itself a numbered piece of the log, ending at index base+lo+m *)
         assert (Esk : skipn (k - lo) (e :: b')
-                      = number (base + 1 + N.of_nat k) (skipn (k - lo) (q :: p2'))).
+                      = number_log (base + 1 + N.of_nat k) (skipn (k - lo) (q :: p2'))).
         { rewrite Eb. rewrite <- (firstn_skipn (k - lo) (q :: p2')) at 1. rewrite number_app.
           assert (Lf : List.length (firstn (k - lo) (q :: p2')) = (k - lo)%nat)
             by (rewrite firstn_length, Lp2; lia).
@@ -168,14 +168,14 @@ Section Step.
     - split; [discriminate|]. intros [H _]. congruence.
     - destruct p2 as [|q p2']; [cbn in Lp2; discriminate|].
       assert (Efirst : eidx e = base + 1 + N.of_nat (List.length pre)).
-      { cbn [number] in Eb. inversion Eb. reflexivity. }
+      { cbn [number_log] in Eb. inversion Eb. reflexivity. }
       rewrite Efirst. unfold add64, sub64, W64. unfold W64 in Hfit.
       cbn [List.length] in Hlen.
       destruct (N.ltb_spec ((base + N.of_nat k + 1) mod 18446744073709551616)
                            (base + 1 + N.of_nat (List.length pre))) as [Hgap|Hok].
       + split; [|reflexivity]. intros _. split; [discriminate|lia].
       + split.
-        * destruct (_ <? _); destruct (publish _ _); discriminate.
+        * destruct (_ <? _); destruct (publish_entries _ _); discriminate.
         * intros [_ H]. lia.
   Qed.
 End Step.
@@ -185,10 +185,10 @@ Theorem ready_run_exact base pl :
   base + N.of_nat (List.length pl) + 1 < W64 ->
   forall batches k applied' done,
     (k <= List.length pl)%nat ->
-    Forall (is_window (number (base + 1) pl)) batches ->
-    ready_run (base + N.of_nat k) (firstn k (number (base + 1) pl)) batches = Some (applied', done) ->
+    Forall (is_window (number_log (base + 1) pl)) batches ->
+    ready_run (base + N.of_nat k) (firstn k (number_log (base + 1) pl)) batches = Some (applied', done) ->
     exists k', (k <= k' <= List.length pl)%nat /\ applied' = base + N.of_nat k' /\
-               done = firstn k' (number (base + 1) pl).
+               done = firstn k' (number_log (base + 1) pl).
 Proof.
   intros Hfit. induction batches as [|b r IH]; intros k applied' done Hk Hw Hrun.
   - cbn in Hrun. inversion Hrun; subst. exists k. repeat split; auto.
@@ -204,14 +204,14 @@ Proof.
 Qed.
 
 (* the indices applied are base+1, base+2, ... : no gap, no repeat *)
-Lemma number_indices f pl : map eidx (number f pl) = map (fun i => f + N.of_nat i) (seq 0 (List.length pl)).
+Lemma number_indices f pl : map eidx (number_log f pl) = map (fun i => f + N.of_nat i) (seq 0 (List.length pl)).
 Proof.
   revert f; induction pl as [|p r IH]; intros f; [reflexivity|].
-  cbn [number map List.length seq eidx]. f_equal; [lia|].
+  cbn [number_log map List.length seq eidx]. f_equal; [lia|].
   rewrite IH, <- seq_shift, map_map. apply map_ext. intros i. lia.
 Qed.
 
-Lemma firstn_number k f pl : firstn k (number f pl) = number f (firstn k pl).
+Lemma firstn_number k f pl : firstn k (number_log f pl) = number_log f (firstn k pl).
 Proof.
   revert f pl; induction k as [|k IH]; intros f [|p r]; cbn; try reflexivity. now rewrite IH.
 Qed.
@@ -325,16 +325,16 @@ End Linearizable.
 (* ------------------------------------------------------------------ statements for Properties/C07.v *)
 Theorem exactly_once_in_order base pl batches applied' done :
   base + N.of_nat (List.length pl) + 1 < W64 ->
-  Forall (is_window (number (base + 1) pl)) batches ->
+  Forall (is_window (number_log (base + 1) pl)) batches ->
   ready_run base [] batches = Some (applied', done) ->
   exists k, (k <= List.length pl)%nat /\ applied' = base + N.of_nat k /\
-            done = firstn k (number (base + 1) pl) /\
+            done = firstn k (number_log (base + 1) pl) /\
             map eidx done = map (fun i => base + 1 + N.of_nat i) (seq 0 k).
 Proof.
   intros Hfit Hw Hrun.
   assert (E0 : base = base + N.of_nat 0) by lia.
   rewrite E0 in Hrun at 1.
-  change (@nil entry) with (firstn 0 (number (base + 1) pl)) in Hrun.
+  change (@nil entry) with (firstn 0 (number_log (base + 1) pl)) in Hrun.
   destruct (ready_run_exact base pl Hfit batches 0%nat applied' done ltac:(lia) Hw Hrun)
     as (k & Hk & Ha & Hd).
   exists k. repeat split; auto; try lia.
@@ -343,7 +343,7 @@ Qed.
 
 Theorem stops_only_on_gap base pl k pre b post :
   base + N.of_nat (List.length pl) + 1 < W64 ->
-  number (base + 1) pl = pre ++ b ++ post -> (k <= List.length pl)%nat ->
+  number_log (base + 1) pl = pre ++ b ++ post -> (k <= List.length pl)%nat ->
   (ready_step (base + N.of_nat k) b = None <-> b <> [] /\ (k < List.length pre)%nat).
 Proof. intros Hfit. apply ready_step_fatal_iff. exact Hfit. Qed.
 
@@ -363,7 +363,7 @@ Qed.
    restarted or lagging replica) applies both at 102 s: A answers nil, B answers v, and the
    keyspaces differ. *)
 Definition w_ttl_log : list entry :=
-  number 1 [PCmd (B "a") [B "SET"; B "k"; B "v"; B "EX"; B "1"]; PCmd (B "b") [B "GET"; B "k"]].
+  number_log 1 [PCmd (B "a") [B "SET"; B "k"; B "v"; B "EX"; B "1"]; PCmd (B "b") [B "GET"; B "k"]].
 Definition w_envs_a : list env := [(100, 100000, RNil); (102, 102000, RNil)]%Z.
 Definition w_envs_b : list env := [(102, 102000, RNil); (102, 102000, RNil)]%Z.
 
